@@ -252,7 +252,7 @@ IndexOf(v, x) ==
 RECURSIVE GetPath(_, _, _)
 GetPath(v, p, i) ==
   IF i > Len(p) THEN V1(v)
-  ELSE IF v.t \notin {"null", "arr", "obj"} THEN VTypeErr
+  ELSE IF v.t \notin {"null", "arr", "obj", "str"} THEN VTypeErr      \* strings: indexed and sliced like by the access itself (fix D26)
   ELSE LET r == IndexOf(v, p[i]) IN IF r.e # NoErr THEN r ELSE GetPath(r.o[1], p, i + 1)
 
 Nulls(n) == [i \in 1..n |-> Null]
